@@ -78,6 +78,14 @@ CHECKS = {
          "All 16 004 (year, season) pairs -1000..3000 (apparent longitude 1e-5 deg, order, spacings, range ends); every day of 10 years (thorough: 601 + 600 years) for the equation of time; 2 520 sunrise/sunset cases (a refusal is accepted only when the Sun really does not cross the standard altitude that day); 5 670 synthetic bodies for times_rise_transit_set incl. the 0/360 right-ascension seam, circumpolar and never-rising cases.",
          "Real-valued quantifier: lattices; the Sun's altitude oracle uses Sun.apparent_geocentric_position (C08), apparent_sidereal_time (C16) and equatorial2horizontal (C05).",
          "DESIGN.md 3/C14"),
+ "C13": (EX, "exhaustive query lattices (1/20 period) per finder variant with ordering clauses on every consecutive query pair and an event clause (sign change of the defining function built from the library's VSOP87 positions) on every distinct event",
+         "56 finder variants (28 Meeus ch. 36 finders, perihelion/aphelion and both node passages of 7 planets). Quick: 6 eras x 6 periods each (37 664 queries, ~4 000 events, every event checked); thorough: the whole range -2000..4000 (about 7.5 million queries, every 10th event checked) plus the range clause. Test-pinned defects of passage_nodes / Uranus perihelion are known findings accepted only at the recorded queries with the recorded offset.",
+         "Real-valued quantifier: query lattice at 1/20 period; the event oracle relies on VSOP87 positions (C07) and a two-iteration light-time correction.",
+         "DESIGN.md 3/C13"),
+ "C15": (EX, "exhaustive epoch lattice for the Moon's position identities; query lattices (1/20 period, plus every calendar day of 8 sample years in both calendars) per lunar finder and target with ordering clauses on every consecutive pair and event clauses from the library's own Moon/Sun positions",
+         "Position: 4 800 epochs (thorough: every 3 days over -2000..4000). Finders: 10 (finder, target) pairs x 7 eras x 40 periods + 8 full calendar years incl. 29 February of Julian century years (85 190 queries, every distinct event checked); thorough: the whole range (15.4 million queries, every 10th event).",
+         "Real-valued quantifier: lattices; event oracles use the library's own Moon and Sun positions.",
+         "DESIGN.md 3/C15"),
 }
 
 NOT_YET = {}
